@@ -28,7 +28,13 @@ def decFn (s : String) : Fn :=
            generics := [], hasBuf := false, isCtor := false }
 
 def decSeg (s : String) : PathSeg :=
-  if s.startsWith "c=" then .cls (decStr (s.drop 2).toString) else .ns (decStr (s.drop 2).toString)
+  if s.startsWith "c=" then .cls (decStr (s.drop 2).toString)
+  else if s.startsWith "f=" then .nsf (decStr (s.drop 2).toString)
+  else .ns (decStr (s.drop 2).toString)
+
+/-- library field: the library name, or `P<prefix>` for an explicit `format: C_prefix`. -/
+def decPrefix (lib : String) : Str :=
+  if lib.startsWith "P" then decStr (lib.drop 1).toString else libraryPrefix (decStr lib)
 
 def decWrap (s : String) : Wrap :=
   match s.toList with
@@ -56,7 +62,7 @@ def encRec (sc : Scope) (r : Rec) : String :=
 def handleEx : List String → String
   | w :: lib :: conts =>
     let w0 := decWrap w
-    let pre := libraryPrefix (decStr lib)
+    let pre := decPrefix lib
     "#".intercalate (conts.map fun c =>
       match c.splitOn "@" with
       | [path, fns] =>
@@ -86,18 +92,27 @@ def handleTm : List String → String
   | _ => " ".intercalate [showTmpl C_name_template, showTmpl F_C_name_template,
       showTmpl F_name_impl_template, showTmpl F_name_function_template, showTmpl F_name_generic_template]
 
+/-- `GenericFunction(force, ...)` is created by the first node filed under the key. -/
+def giForce (sc : Scope) (recs : List Rec) (k : Str) : Bool :=
+  match recs.find? (fun r => r.wrap.f && genericKey sc r == k) with
+  | some r => r.gen == .fortranGeneric || (r.isCtor && !r.templated)
+  | none => false
+
+def giEntry (sc : Scope) (recs : List Rec) (e : Str × List Str) : String :=
+  encStr e.1 ++ "=" ++ (if giForce sc recs e.1 then "1" else "0") ++ "=" ++ "+".intercalate (e.2.map encStr)
+
 /-- `gi <wrap> <library> <container>` : generic-interface table of one container. -/
 def handleGi : List String → String
   | [w, lib, c] =>
     let w0 := decWrap w
-    let pre := libraryPrefix (decStr lib)
+    let pre := decPrefix lib
     match c.splitOn "@" with
     | [path, fns] =>
       let sc := scopeOf pre w0 (decList decSeg "/" path) (rootScope pre w0)
-      let t := genericTable sc (expand sc (decList decFn "!" fns)) []
-      if t.isEmpty then "~" else ";".intercalate (t.map fun (k, vs) => encStr k ++ "=" ++ encStrs' vs)
+      let recs := expand sc (decList decFn "!" fns)
+      let t := genericTable sc recs []
+      if t.isEmpty then "~" else ";".intercalate (t.map (giEntry sc recs))
     | _ => "bad-container"
   | _ => "bad-op"
-where encStrs' (vs : List Str) : String := "+".intercalate (vs.map encStr)
 
 end Driver
